@@ -122,7 +122,9 @@ def run(chk):
         states += [('', 'ACC0', 'CLI0', 'PID0', 'Name0'), ('u', '', 'CLI0', 'PID0', 'Name0'), ('u', 'ACC0', '', 'PID0', 'Name0'), ('u', 'a', 'c', '', '')]
         ops = [('authenticate', 'alice', 'pw', False), ('authenticate', 'alice', 'pw', True), ('refresh',), ('validate',), ('invalidate',), ('join', 'serverhash'), ('sign_out', 'alice', 'pw'),
                # posted and stored exactly as given: no trimming, case folding or Unicode normalisation
-               ('authenticate', 'e\u0308mil@Example.COM ', ' pa\u030ass\u212b', False), ('sign_out', 'A\u030a\u2126', 'p\ufb01n '), ('join', 'e\u0301\u212b')]
+               ('authenticate', 'e\u0308mil@Example.COM ', ' pa\u030ass\u212b', False), ('sign_out', 'A\u030a\u2126', 'p\ufb01n '), ('join', 'e\u0301\u212b'),
+               # ... nor any re-encoding: a password that reached Python through surrogateescape carries lone surrogates; JSON can say them
+               ('authenticate', 'al\udce9ce', 'pa\udce9ss', False), ('sign_out', 'x\udcff', 'p\ud800w')]
         statuses = [200, 204, 400, 403, 404, 429, 500, 503]
         plan = list(itertools.product(states, ops, statuses, sorted(BODIES)))
         if not th:
